@@ -165,6 +165,143 @@ func (p *Prog) ApplyAnchors(path string) []string {
 	sort.Slice(fresh, func(i, j int) bool { return fresh[i].Pos() < fresh[j].Pos() })
 	var notes []string
 	used := map[*ssa.Function]bool{}
+	// a renamed type first: every method recorded for a type that no longer exists, and an unrecorded type of today
+	// that has exactly the same set of method names — its methods are the old ones, whatever their bodies mention
+	recvOf := func(name string) (string, string) { // "(*T).m" / "T.m" -> T, m
+		n := strings.TrimPrefix(name, "(*")
+		if k := strings.Index(n, ")."); k >= 0 && strings.HasPrefix(name, "(*") {
+			return n[:k], n[k+2:]
+		}
+		if k := strings.Index(name, "."); k > 0 && !strings.Contains(name, "$") && !strings.HasPrefix(name, "(") {
+			return name[:k], name[k+1:]
+		}
+		return "", ""
+	}
+	typeAlive := map[string]bool{}
+	for name := range have {
+		if t, _ := recvOf(name); t != "" && recorded[name] {
+			typeAlive[t] = true
+		}
+	}
+	oldMethods := map[string]map[string]bool{}
+	for _, e := range missing {
+		if t, m := recvOf(e.Name); t != "" && !typeAlive[t] {
+			if oldMethods[t] == nil {
+				oldMethods[t] = map[string]bool{}
+			}
+			oldMethods[t][m] = true
+		}
+	}
+	newMethods := map[string]map[string]bool{}
+	for _, f := range fresh {
+		if t, m := recvOf(FuncName(f)); t != "" {
+			if newMethods[t] == nil {
+				newMethods[t] = map[string]bool{}
+			}
+			newMethods[t][m] = true
+		}
+	}
+	// several types may share one set of method names (the leaf validators): they are told apart by what their
+	// methods say and call
+	oldFeats := map[string][]string{}
+	for _, e := range missing {
+		oldFeats[e.Name] = e.Feats
+	}
+	freshByName := map[string]*ssa.Function{}
+	for _, f := range fresh {
+		freshByName[FuncName(f)] = f
+	}
+	score := func(ot, nt string, om map[string]bool) float64 {
+		total := 0.0
+		for m := range om {
+			var of []string
+			var nf *ssa.Function
+			for _, pre := range []string{"(*%s).%s", "%s.%s"} {
+				if f, ok := oldFeats[fmt.Sprintf(pre, ot, m)]; ok {
+					of = f
+				}
+				if f, ok := freshByName[fmt.Sprintf(pre, nt, m)]; ok {
+					nf = f
+				}
+			}
+			if nf != nil {
+				a, b := jaccard(of, featsOf(nf)), jaccard(semanticFeats(of), semanticFeats(featsOf(nf)))
+				if b > a {
+					a = b
+				}
+				total += a
+			}
+		}
+		return total
+	}
+	takenNew := map[string]bool{}
+	var oldTypes []string
+	for ot := range oldMethods {
+		oldTypes = append(oldTypes, ot)
+	}
+	sort.Strings(oldTypes)
+	for _, ot := range oldTypes {
+		om := oldMethods[ot]
+		if len(om) < 2 {
+			continue
+		}
+		match := ""
+		n := 0
+		best, second := -1.0, -1.0
+		for nt, nm := range newMethods {
+			if len(nm) != len(om) || takenNew[nt] {
+				continue
+			}
+			same := true
+			for m := range om {
+				if !nm[m] {
+					same = false
+				}
+			}
+			if same {
+				n++
+				if sc := score(ot, nt, om); sc > best {
+					second, best, match = best, sc, nt
+				} else if sc > second {
+					second = sc
+				}
+			}
+		}
+		if n == 0 || (n > 1 && best-second < 0.3) {
+			continue
+		}
+		takenNew[match] = true
+		typeAliases[match] = ot
+		notes = append(notes, fmt.Sprintf("type %s is taken for the renamed %s (same %d methods)", match, ot, len(om)))
+		for _, f := range fresh {
+			name := FuncName(f)
+			t, m := recvOf(name)
+			if t != match {
+				continue
+			}
+			oldName := ot + "." + m
+			if strings.HasPrefix(name, "(*") {
+				oldName = "(*" + ot + ")." + m
+			}
+			used[f] = true
+			aliases[f] = oldName
+			recorded[oldName] = true
+		}
+	}
+	var still []anchorEntry
+	for _, e := range missing {
+		t, _ := recvOf(e.Name)
+		renamed := false
+		for _, ot := range typeAliases {
+			if ot == t && t != "" {
+				renamed = true
+			}
+		}
+		if !renamed {
+			still = append(still, e)
+		}
+	}
+	missing = still
 	for _, e := range missing {
 		var best, second float64
 		var bestF *ssa.Function
